@@ -213,9 +213,21 @@ def c07(tier, seed):
     )
 
 
+def c08_extra(run, prod_bin, tier):
+    """thorough: the same corpus under AddressSanitizer (memory errors inside dependencies reached by hostile input)"""
+    if tier != "thorough":
+        return
+    try:
+        b = build_variant("asan")
+    except orch.HarnessError as e:
+        run.inconc.append(dict(what="asan build unavailable", detail=str(e)))
+        return
+    run.run_stage(b, "asan", ["C08"], 600, name="C08@asan")
+
+
 def c08(tier, seed):
     return generic(
-        "C08", tier, seed, scaled_quick=(), scaled_thorough=(), budgets=(70, 1500),
+        "C08", tier, seed, scaled_quick=(), scaled_thorough=(), budgets=(70, 1500), extra_stages=c08_extra,
         rule="hostile byte strings: valid archives (4 layer combos) with 1..3 structured mutations (truncate, bit flip, byte / u32 / u64 overwrite with boundary values, "
              "splice, insert, delete, append) applied to the raw file, to the compression-layer bytes or to the block stream + footer and then wrapped in valid outer "
              "layers by the independent encoder; forged footers / size tables / block lengths with boundary values, very long offset lists, raw random bytes, empty "
